@@ -67,7 +67,11 @@ const WORK: &str = "/verif/target/c15-work";
 
 pub const K_CB_CODE: &str = "C15-capi-import-callback-kills-inline-code";
 pub const K_DEPS: &str = "C15-deps-importstr-first-hides-imports";
-const ALL_IDS: &[&str] = &[K_CB_CODE, K_DEPS];
+/// `jrsonnet --os-stack N -f xml-jsonml` on a value with a child element prints the right text and then aborts while
+/// the evaluation thread shuts down (glibc: "tcache_thread_shutdown(): unaligned tcache chunk detected")
+pub const K_XML_OS: &str = "C15-os-stack-abort-at-thread-exit";
+static XML_OS_LISTED: std::sync::atomic::AtomicBool = std::sync::atomic::AtomicBool::new(false);
+const ALL_IDS: &[&str] = &[K_CB_CODE, K_DEPS, K_XML_OS];
 
 fn assumed(id: &str) -> bool {
 	match std::env::var("C15_ASSUME_KNOWN") {
@@ -1482,6 +1486,14 @@ pub fn cli_decide(cfg: &CliCfg) -> CaseOut {
 	if problems.is_empty() {
 		return CaseOut::pass(text, nontrivial).classes(classes);
 	}
+	// recorded finding: signature = the executable is killed by a signal, the options contain --os-stack, and exactly
+	// the same command line without --os-stack agrees with the library
+	if XML_OS_LISTED.load(std::sync::atomic::Ordering::SeqCst) && cfg.os_stack.is_some() && problems.iter().any(|p| p.starts_with("the executable crashed: killed by signal")) {
+		let r = CliCfg { os_stack: None, ..cfg.clone() };
+		if matches!(cli_once(&r), Ok((_, p)) if p.is_empty()) {
+			return CaseOut { verdict: Verdict::Known(K_XML_OS.into()), text, nontrivial, classes };
+		}
+	}
 	CaseOut::fail(text, problems.join("\n")).classes(classes)
 }
 
@@ -2489,6 +2501,16 @@ fn base_capi(prog: Prog) -> CapiCase {
 /// the built-in minimal reproducer of every finding id
 fn builtin_reproducer(id: &str, known: &[String]) -> Option<CaseOut> {
 	Some(match id {
+		K_XML_OS => {
+			let text = "jrsonnet --os-stack 16 -f xml-jsonml -e '[\"root\", [\"child\"]]'".to_owned();
+			let args: Vec<String> = ["--os-stack", "16", "-f", "xml-jsonml", "-e", "[\"root\", [\"child\"]]"].iter().map(|s| (*s).to_owned()).collect();
+			match run_proc(&bin("jrsonnet"), &args, Path::new("/"), &[], None) {
+				Ok(o) if o.signal.is_some() => CaseOut { verdict: Verdict::Known(K_XML_OS.into()), text, nontrivial: true, classes: vec![] },
+				Ok(o) if o.ok() => CaseOut::pass(text, true),
+				Ok(o) => CaseOut::fail(text, format!("fails in another way: {}", o.status())),
+				Err(e) => CaseOut::discard(text, &format!("cannot run the executable: {e}")),
+			}
+		}
 		K_CB_CODE => {
 			let ext = vec![Var { name: "e0".into(), flavour: Flavour::Code, sval: String::new(), code: CodeV::Expr("1 + 2".into()), fault: 0, file: String::new(), form: 0 }];
 			capi_decide(&CapiCase { mem: true, ext, ..base_capi(lit_prog(vec![Atom::Ext("e0".into())], None, Shape::First)) }, known)
@@ -2543,6 +2565,7 @@ pub fn run(run: &Run) {
 	run.assume("`-f string` is compared with the library's ToStringFormat (the --help text 'Expect string as output' would also fit StringFormat, which -S uses)");
 	run.assume("under -m a failing run may already have listed / written some files: only the exit status and stderr are required then");
 	let known = known_set(run);
+	XML_OS_LISTED.store(known.iter().any(|k| k == K_XML_OS), std::sync::atomic::Ordering::SeqCst);
 	let _ = std::fs::create_dir_all(WORK);
 	run.reproduce_known(|k| decide_known_text(&k.id, &k.replay, &known));
 	// development aid: C15_SELFTEST=1 decides the built-in reproducer of every finding id this module knows
